@@ -66,7 +66,7 @@ def concretize(prog, cmds, seed, trigger=TRIGGER, vary_case=True, layout=None):
         name = casing(actual, rng) if vary_case else actual
         args = [subst(a, i) for a in c["ord"]]
         out.append(ind + "%s(%s)" % (name, " ".join(args)))
-        meta[i] = {"name": actual.lower(), "k": k, "d": p["d"]}
+        meta[i] = {"name": actual.lower(), "k": k, "d": p["d"], "first_arg": args[0] if args else ""}
         if k in ("function", "macro", "cpp_class"):
             stack.append(k)
         elif k in ("endfunction", "endmacro", "cpp_end_class") and stack:
@@ -326,8 +326,13 @@ def proj_c11(views):
 
 # ---- C08: the doccomment-stemming part of a page
 def _is_doc(name, meta):
-    m = re.match(r"^n(\d+)$", name.split("(")[0])
-    return bool(m) and int(m.group(1)) in meta and bool(meta[int(m.group(1))]["d"])
+    base = name.split("(")[0]
+    m = re.match(r"^n(\d+)$", base)
+    if m:
+        return int(m.group(1)) in meta and bool(meta[int(m.group(1))]["d"])
+    # entries with a fixed name (e.g. 'dup', defined more than once) cannot be attributed to one command by name:
+    # they are left out of the C08 projection (C02/C03 judge them)
+    return False
 
 
 def doc_part(views, meta, structural=False):
